@@ -194,6 +194,8 @@ type handler struct {
 	shutRetSeq   int64
 	shutErr      error
 	pointMissed  bool
+	panicVal     string
+	panicSite    string
 	delivered    map[string]int
 	deliveredSeq []string
 }
@@ -364,7 +366,7 @@ func (h *handler) snapshot(spec caseSpec) *caseRes {
 	h.mu.Lock()
 	defer h.mu.Unlock()
 	r := &caseRes{Spec: spec, FinalSet: h.finalSet, Final: h.final, TCall: h.tCall, TRet: h.tRet, SeqCall: h.seqCall, SeqRet: h.seqRet,
-		Deadline: h.deadline, CtxErrAfter: h.ctxErrAfter, ShutCallSeq: h.shutCallSeq, ShutRetSeq: h.shutRetSeq, ShutErr: h.shutErr, PointMissed: h.pointMissed}
+		Deadline: h.deadline, CtxErrAfter: h.ctxErrAfter, ShutCallSeq: h.shutCallSeq, ShutRetSeq: h.shutRetSeq, ShutErr: h.shutErr, PointMissed: h.pointMissed, Panic: h.panicVal, PanicSite: h.panicSite}
 	for _, a := range h.attempts {
 		r.Attempts = append(r.Attempts, *a)
 	}
@@ -451,9 +453,13 @@ func runDirect(c *driver.Ctx, spec caseSpec) *caseRes {
 			h.seqCall = h.seq.Add(1)
 			h.tCall = time.Now()
 			h.mu.Unlock()
-			err := in.consume(ctx, ids)
+			var err error
+			pv, pst := driver.Catch(func() { err = in.consume(ctx, ids) })
 			now := time.Now()
 			h.mu.Lock()
+			if pv != nil {
+				h.panicVal, h.panicSite = fmt.Sprint(pv), driver.PanicSite(pst)
+			}
 			h.final, h.finalSet, h.tRet, h.seqRet, h.ctxErrAfter = err, true, now, h.seq.Add(1), ctx.Err()
 			h.mu.Unlock()
 			h.progress.Add(1)
@@ -911,12 +917,12 @@ func runQueue(c *driver.Ctx, spec caseSpec) *caseRes {
 		sdDone := make(chan error, 1)
 		if spec.Point == "during-attempt" {
 			<-h1.gateEntered
-			go func() { sdDone <- in1.comp.Shutdown(context.Background()) }()
+			go func() { sdDone <- safeShutdown(in1.comp) }()
 			time.Sleep(2 * time.Millisecond) // scheduling aid only: lets Shutdown close the stop channel first in most runs
 			close(h1.gateRelease)
 		} else {
 			<-h1.logCh
-			go func() { sdDone <- in1.comp.Shutdown(context.Background()) }()
+			go func() { sdDone <- safeShutdown(in1.comp) }()
 		}
 		sdErr := <-sdDone
 		h1.progress.Add(1)
@@ -985,6 +991,15 @@ func runQueue(c *driver.Ctx, spec caseSpec) *caseRes {
 	return &out
 }
 
+// safeShutdown reports a panic inside Shutdown as an error carrying the panic site.
+func safeShutdown(comp component.Component) error {
+	var err error
+	if pv, st := driver.Catch(func() { err = comp.Shutdown(context.Background()) }); pv != nil {
+		return fmt.Errorf("PANIC in Shutdown at %s: %v", driver.PanicSite(st), pv)
+	}
+	return err
+}
+
 func judgeQueue(c *driver.Ctx, r *caseRes) {
 	spec := r.Spec
 	c.Eval()
@@ -1021,6 +1036,9 @@ func judgeQueue(c *driver.Ctx, r *caseRes) {
 		return
 	}
 	c.Observe("queue_cases:"+spec.Point, 1)
+	if r.ShutErr != nil {
+		c.Violation("shutdown-error", "Shutdown returned an error: "+r.ShutErr.Error(), wit(), "point", "queue/"+spec.Point)
+	}
 	lost := 0
 	for _, ids := range r.Accepted {
 		for _, id := range ids {
@@ -1282,7 +1300,23 @@ func (rn *runner) flush() {
 	rn.pending = rn.pending[:0]
 }
 
+// endAwayFromFlushTick works around a race in lib/driver.runChild (reported, not ours to edit): the child's
+// periodic result flush (every 2 s, started right before Run) is not joined before the final flush, so a tick
+// that is pending when Run returns can rewrite the result with done=false after the final flush and the parent
+// then reports the shard as died. Returning in the middle of a period makes that practically impossible.
+func endAwayFromFlushTick(t0 time.Time) {
+	const period = 2 * time.Second
+	for {
+		ph := time.Since(t0) % period
+		if ph > 300*time.Millisecond && ph < 1500*time.Millisecond {
+			return
+		}
+		time.Sleep(25 * time.Millisecond)
+	}
+}
+
 func run(c *driver.Ctx) {
+	defer endAwayFromFlushTick(time.Now())
 	race := c.Variant == "race"
 	rn := &runner{c: c}
 	// the directed reproducer runs first, in every run, on shard 0
@@ -1292,7 +1326,7 @@ func run(c *driver.Ctx) {
 	next := int64(1)
 	// 1. exhaustive sweep: every script = prefix of non-terminal outcomes (length <= L) + verdict, each under several configurations
 	maxPrefix := c.N(5, 7)
-	perScript := c.N(3, len(sweepCfgs))
+	perScript := c.N(5, len(sweepCfgs))
 	if race {
 		maxPrefix, perScript = c.N(4, 5), c.N(2, 5)
 	}
@@ -1351,7 +1385,7 @@ func run(c *driver.Ctx) {
 		rn.emit(job{g, spec})
 	}
 	// 3. shutdown at scripted logical points
-	nShut := int64(c.N(1440, 40000))
+	nShut := int64(c.N(2880, 40000))
 	if race {
 		nShut = int64(c.N(720, 20000))
 	}
@@ -1383,7 +1417,7 @@ func main() {
 	driver.Main(driver.Spec{
 		ID:    "C05",
 		Level: "exploration",
-		Rule: "a sweep case is one (outcome script, back-off configuration class, signal): every script consisting of a prefix of non-terminal outcomes {transient, throttle(d), partial(remaining subset), attempt-timeout} of length <= 5 (quick) / 7 (thorough) followed by a verdict {ok, permanent, request-deadline expiry, cancellation} is enumerated, each under 3 (quick) / all 15 (thorough) configuration classes (randomization 0 / 0.3 / 0.5 / 1, multiplier 1-3, intervals 0, 1 ns, 50 us, 1-2 ms, budgets and deadlines none / 9-12 ms / 1 h, retry disabled), plus random scripts of 6-9 failures incl. throttle+partial; " +
+		Rule: "a sweep case is one (outcome script, back-off configuration class, signal): every script consisting of a prefix of non-terminal outcomes {transient, throttle(d), partial(remaining subset), attempt-timeout} of length <= 5 (quick) / 7 (thorough) followed by a verdict {ok, permanent, request-deadline expiry, cancellation} is enumerated, each under 5 (quick) / all 15 (thorough) configuration classes (randomization 0 / 0.3 / 0.5 / 1, multiplier 1-3, intervals 0, 1 ns, 50 us, 1-2 ms, budgets and deadlines none / 9-12 ms / 1 h, retry disabled), plus random scripts of 6-9 failures incl. throttle+partial; " +
 			"shutdown cases: Shutdown before the call, while attempt k is in flight (gate in the export function) or after the retry sender logged that wait k started, with waits of 0, 1 ns, 10 s and one hour; queue cases: the same behind a persistent queue on an in-memory storage extension, followed by a second incarnation; " +
 			"non-trivial = at least one retry decision (retry or give up after a failed attempt) was taken; distinct = distinct (script, configuration class [, shutdown point])",
 		Assumptions: []string{
@@ -1396,7 +1430,7 @@ func main() {
 		TrustedBase:   []string{"zap field encoding of the interval", "time.Duration String/ParseDuration round trip", "Go race detector (race variant)"},
 		Shards:        func(string) int { return 16 },
 		Variants:      func(string) []string { return []string{"plain", "race"} },
-		MinNontrivial: func(tier string) int { return map[string]int{"quick": 5000, "thorough": 200000}[tier] },
+		MinNontrivial: func(tier string) int { return map[string]int{"quick": 10000, "thorough": 200000}[tier] },
 		ShardTimeout: func(tier string) time.Duration {
 			if tier == "thorough" {
 				return 45 * time.Minute
